@@ -263,6 +263,8 @@ def simple_protocols(ctx, P, iters):
                                 done.add(key)
                                 if _assigned_by_user_protocol(P, view, a, m):
                                     continue
+                                if cname == "Server" and m == "utilisation":
+                                    continue    # a statistic read by the user after a stop: busy_time/total_time are maintained by the node (wrap_up_servers assigns both)
                                 if cname == "Slotted" and m == "get_next_shift" and not any(v["SLOTTED"] for v in contexts(P, P.view("Node")).reachable("change_shift")):
                                     continue    # get_next_shift is only called by change_shift, which no slotted configuration reaches (verified on the tree)
                                 ctx.violation(ob, "R9.init", e.frame.qual, "read self.%s" % a, "no-init",
